@@ -22,7 +22,7 @@ from nixsa.px import explore
 from nixsa.px_core import Budget
 from nixsa.model import AnalysisError
 from nixsa.dtable import TermEval, NOTHING, Unknown
-from nixsa.values import show, is_const, subterms, params_of
+from nixsa.values import show, is_const, subterms, params_of, V
 
 VAL = "nixio.validator:"
 HELPERS = ("check_entity", "check_range_dimension", "check_sampled_dimension", "check_set_dimension", "check_feature",
@@ -164,39 +164,62 @@ def reported(M, paths, sc, by_text, what):
 
 
 def filing_contract(cfg, g):
-    """a leaf closure of check_file that files diagnostics: which parameter is the object (key), which one goes under
-    'errors' and which under 'warnings' -- derived from its own abstract paths, None when it is not such a function"""
+    """a leaf closure of check_file that files diagnostics. Two shapes, derived from its own abstract paths:
+    {"kind": "files", obj, errors, warnings}: parameters that are the key, the value under 'errors', the value under 'warnings';
+    {"kind": "checks", obj, check}: it applies the check function it is handed to the object and files the two results.
+    None when it is neither."""
     from nixsa.callgraph import _OpaqueEnv
     try:
         paths = explore(cfg, g, None, None, 2000, closure_env=_OpaqueEnv())
     except (Budget, AnalysisError):
         return None
+    names = [a.arg for a in g.node.args.args]
     roles = {}
+    applied = set()
     for p in paths:
         for e in p.events:
+            if e.kind == "callv" and e.recv is not None and e.recv.t and e.recv.t[0] == "param" and len(e.args) == 1 and \
+                    e.args[0].t and e.args[0].t[0] == "param":
+                applied.add((e.recv.t[1], e.args[0].t[1]))
             if e.kind == "local" and e.op == "setitem" and e.recv is not None and e.key is not None and e.args:
-                r = e.recv.t
-                which = [x[1] for x in subterms(r) if x and x[0] == "const" and x[1] in ("errors", "warnings")]
-                if len(which) != 1 or e.key.t[0] != "param" or e.args[0].t[0] != "param":
+                which = [x[1] for x in subterms(e.recv.t) if x and x[0] == "const" and x[1] in ("errors", "warnings")]
+                if len(which) != 1 or e.key.t[0] != "param":
                     return None
-                roles.setdefault(which[0], set()).add((e.key.t[1], e.args[0].t[1]))
+                v = e.args[0].t
+                if v[0] == "param":
+                    val = ("param", v[1])
+                elif v[0] == "unpack" and v[1][0] == "call" and len(v[1][2]) == 1 and v[1][2][0][0] == "param":
+                    val = ("result", v[1][1], v[1][2][0][1], v[2])     # i-th result of <callee>(<param>)
+                else:
+                    return None
+                roles.setdefault(which[0], set()).add((e.key.t[1], val))
     if set(roles) != {"errors", "warnings"} or any(len(v) != 1 for v in roles.values()):
         return None
-    (ko, pe), = roles["errors"]
-    (kw_, pw), = roles["warnings"]
-    if ko != kw_ or pe == pw:
+    (ko, ve), = roles["errors"]
+    (kw_, vw), = roles["warnings"]
+    if ko != kw_ or ve == vw:
         return None
-    # a non-empty list is always filed
-    for p in paths:
-        dec = {a[1][1]: v for a, v in p.decisions if a[0] == "truthy" and a[1][0] == "param"}
-        stored = {x[1] for e in p.events if e.kind == "local" and e.op == "setitem" for x in subterms(e.recv.t)
-                  if x and x[0] == "const" and x[1] in ("errors", "warnings")}
-        if dec.get(pe, True) and "errors" not in stored and p.normal:
+
+    def always_filed(pe_atom, pw_atom):
+        for p in paths:
+            if not p.normal:
+                continue
+            dec = {a[1]: v for a, v in p.decisions if a[0] == "truthy"}
+            stored = {x[1] for e in p.events if e.kind == "local" and e.op == "setitem" for x in subterms(e.recv.t)
+                      if x and x[0] == "const" and x[1] in ("errors", "warnings")}
+            if dec.get(pe_atom, True) and "errors" not in stored:
+                return False
+            if dec.get(pw_atom, True) and "warnings" not in stored:
+                return False
+        return True
+    if ve[0] == "param" and vw[0] == "param":
+        if not always_filed(("param", ve[1]), ("param", vw[1])):
             return None
-        if dec.get(pw, True) and "warnings" not in stored and p.normal:
-            return None
-    names = [a.arg for a in g.node.args.args]
-    return {"obj": names.index(ko), "errors": names.index(pe), "warnings": names.index(pw)}
+        return {"kind": "files", "obj": names.index(ko), "errors": names.index(ve[1]), "warnings": names.index(vw[1])}
+    if ve[0] == "result" and vw[0] == "result" and ve[1:3] == vw[1:3] and (ve[3], vw[3]) == (0, 1) and ve[2] == ko and \
+            len(applied) == 1 and next(iter(applied))[1] == ko and next(iter(applied))[0] in names:
+        return {"kind": "checks", "obj": names.index(ko), "check": names.index(next(iter(applied))[0])}
+    return None
 
 
 def traversal_rule(M, rep, R1, vm):
@@ -222,7 +245,7 @@ def traversal_rule(M, rep, R1, vm):
             c.cfg.opaque[g.qual] = ("const", None)
     def force(atom, domain):
         # the rule is about the traversal: it looks at the one family of paths on which every container holds exactly one
-        # element and nothing raises; conditions on the results themselves (is the error list empty?) stay free
+        # element, nothing raises and every check reports something
         k = atom[0]
         if k == "iter":
             return atom[2] == 0
@@ -230,8 +253,6 @@ def traversal_rule(M, rep, R1, vm):
             return False
         if k == "enumvalid":
             return True
-        if any(x and x[0] == "call" and isinstance(x[1], str) and x[1].startswith(VAL + "check_") for x in subterms(atom)):
-            return None
         return list(domain)[0]
     c.cfg.force = force
     try:
@@ -250,10 +271,16 @@ def traversal_rule(M, rep, R1, vm):
             if isinstance(t, tuple) and t[0] == "obj":
                 return t[1]
         # an abstract element of a container accessor: the accessor's name says what it holds
-        if v.t and v.t[0] == "elem" and v.t[1] and v.t[1][0] == "attr":
-            for kind, cn in KCLS.items():
-                if v.t[1][2] in (kind, "_" + kind):
-                    return cn
+        if v.t and v.t[0] == "elem" and v.t[1]:
+            src = v.t[1]
+            while src and src[0] == "call" and src[1] in ("iter", "reversed", "list", "tuple") and src[2]:
+                src = src[2][0]         # an iterator / copy of a container yields the container's elements
+            if src and src[0] == "attr":
+                for kind, cn in KCLS.items():
+                    if src[2] in (kind, "_" + kind):
+                        return cn
+            if src and src[0] == "inst" and src[1].endswith("Container") and src[1][:-len("Container")] in KCLS.values():
+                return src[1][:-len("Container")]
         return None
     checked = {}        # class of the checked object -> {(check function, argument term)}
     filed = set()       # argument terms filed correctly
@@ -268,18 +295,51 @@ def traversal_rule(M, rep, R1, vm):
                 fn = e.op.split(":")[-1]
                 calls[e.args[0].t] = fn
                 checked.setdefault(cls_of(e.args[0]), set()).add((fn, e.args[0].t))
+            if e.kind == "ocall" and e.op in contracts and contracts[e.op]["kind"] == "checks" and len(e.args) >= 2:
+                k_ = contracts[e.op]
+                ft_ = e.args[k_["check"]].t
+                if ft_ and ft_[0] == "fn" and isinstance(ft_[1], str) and ft_[1].startswith(VAL + "check_"):
+                    calls[e.args[k_["obj"]].t] = ft_[1].split(":")[-1]
+            handed = None
             if e.kind == "rcall" and e.args:
+                handed = e.args[0]
+            elif e.kind == "local" and e.op in ("list.append", "list.extend", "list.insert", "list.__iadd__") and e.args:
+                # an explicit work list instead of recursion: the children container (or an iterator over it) is queued
+                for a in e.args:
+                    for x in subterms(a.t):
+                        if x and x[0] == "inst" and x[1] in ("SourceContainer", "SectionContainer"):
+                            handed = V(x, [("obj", x[1])])
+            if e.kind in ("rcall", "local") and e.args and (e.kind == "rcall" or e.op.startswith("list.")):
+                # ... or the accessor of an abstract element that was just checked: <checked element>.sources
+                for a in e.args:
+                    for x in subterms(a.t):
+                        for cn_, kind_ in (("Source", "sources"), ("Section", "sections")):
+                            if x and x[0] == "attr" and x[2] in (kind_, "_" + kind_) and calls.get(x[1]) == KINDS[kind_]:
+                                walked.add(cn_)
+            if handed is not None:
                 for cn in ("Source", "Section"):
-                    site = e.args[0].t[2] if e.args[0].t and e.args[0].t[0] == "inst" and len(e.args[0].t) > 2 else ""
+                    e_args0 = handed
+                    site = e_args0.t[2] if e_args0.t and e_args0.t[0] == "inst" and len(e_args0.t) > 2 else ""
                     mod = M.classes[cn].module.relpath.split("/")[-1] if cn in M.classes else "?"
                     kfn = [KINDS[k_] for k_, c2 in KCLS.items() if c2 == cn][0]
-                    if cls_of(e.args[0]) == cn + "Container" and str(site).startswith(mod) and kfn in calls.values():
+                    if cls_of(e_args0) == cn + "Container" and str(site).startswith(mod) and kfn in calls.values():
                         walked.add(cn)
         filings = []
         for e in p.events:
-            if e.kind == "ocall" and e.op in contracts and len(e.args) >= 3:
+            if e.kind == "ocall" and e.op in contracts:
                 k = contracts[e.op]
-                filings.append((e.args[k["obj"]].t, e.args[k["errors"]].t, e.args[k["warnings"]].t))
+                if k["kind"] == "files" and len(e.args) >= 3:
+                    filings.append((e.args[k["obj"]].t, e.args[k["errors"]].t, e.args[k["warnings"]].t))
+                elif k["kind"] == "checks" and len(e.args) >= 2:
+                    # the closure applies the check it is handed and files both results under the object (its contract)
+                    ft = e.args[k["check"]].t
+                    fq = [x[1] for x in subterms(ft) if x and x[0] == "fn" and isinstance(x[1], str) and x[1].startswith(VAL + "check_")]
+                    if fq:
+                        fn = fq[0].split(":")[-1]
+                        o = e.args[k["obj"]]
+                        calls[o.t] = fn
+                        checked.setdefault(cls_of(o), set()).add((fn, o.t))
+                        filed.add(o.t)
         direct = {}
         for e in p.events:
             if e.kind == "local" and e.op == "setitem" and e.recv is not None and e.key is not None and e.args:
